@@ -148,12 +148,24 @@ def posOf (h : List Ev) (p : Ev → Bool) : Option Nat := h.findIdx? p
 def barrierOK (h : List Ev) : Option String :=
   let idxd := h.zipIdx
   let barriers := idxd.filterMap (fun (e, i) => match e with
-    | .call cid s l 1 _ _ _ 0 _ _ => some (cid, s, l, i)
+    | .call cid s l 1 _ _ _ 0 bidx _ => some (cid, s, l, i, bidx)
     | _ => none)
-  barriers.findSome? (fun (cid, s, l, retPos) =>
+  let T := applied h
+  barriers.findSome? (fun (cid, s, l, retPos, bidx) =>
     match posOf h (fun e => match e with | .invoke c => c == cid | _ => false) with
     | none => none
     | some invPos =>
+      -- every agreed command below the barrier's own index has reached the local FSM by the time
+      -- the barrier returns
+      let below := (T.filter (fun x => x.1 < bidx)).map (·.1)
+      let appliedLocallyB (idx : Nat) : Bool :=
+        (idxd.filter (fun (_, i) => i < retPos)).any (fun (e, _) => match e with
+          | .fapply s' l' i' _ _ => s' == s && l' == l && i' == idx
+          | .frestore s' l' _ => s' == s && l' == l
+          | _ => false)
+      match (if bidx == 0 then none else below.find? (fun idx => !appliedLocallyB idx)) with
+      | some idx => some s!"barrier-{cid}-at-index-{bidx}-returned-before-local-fsm-applied-index-{idx}"
+      | none =>
       -- applies acknowledged (K record) before the barrier's invoke
       let ackedBefore := (idxd.filter (fun (_, i) => i < invPos)).filterMap (fun (e, _) => match e with
         | .call _ _ _ 0 _ _ _ 0 idx _ => some idx
